@@ -394,6 +394,17 @@ func c12Backoff(c *Check, P string, I *ssa.Function, b ssa.Value) {
 			src := LoadedField(firstOrigin(val))
 			okCopy := src != nil && src.Name() == f.Name() && src.Exported()
 			c.Report(okCopy, P+".O4", "BACKOFF-FIELD", st.Parent(), st.Pos(), "backoff."+f.Name(), "the back-off parameter "+f.Name()+" is copied from the Retry field of the same name")
+			// unconditionally: no path from the object's creation to an exit of that function goes around the assignment
+			if nb.Parent() == st.Parent() {
+				re := ReachAfter(nb, NewCut().AddInstrs(st))
+				okAlways := true
+				for _, ret := range Returns(st.Parent()) {
+					if re[ret] {
+						okAlways = false
+					}
+				}
+				c.Report(okAlways, P+".O4", "BACKOFF-FIELD-ALWAYS", st.Parent(), st.Pos(), "backoff."+f.Name(), "the configured "+f.Name()+" is applied whatever its value (a value-dependent assignment silently replaces legal settings, e.g. Multiplier 1 = constant interval, by the library default)")
+			}
 			if okCopy {
 				want[f.Name()] = true
 			}
